@@ -316,6 +316,7 @@ def W5(ctx):
             ctx.ok("W5", jk, "join waits for the notification before taking the result", [prog.fns[jk].loc()])
         else:
             ctx.bad("W5", jk, "join must wait on the thread's Notify before taking the result", prog.fns[jk].loc())
+WITNESSES = ['C08JoinConsumes']
 
 
 def run(ctx):
